@@ -178,6 +178,21 @@ def build(cfg, values=None):
             beta_, gamma_, mu_ = ctx.V('beta'), (ctx.V('gamma') if (model == 'cpanel' and flow == 'x') else None), ctx.V('aeromu')
             bay.beta, bay.gamma, bay.aeromu = beta_, gamma_, mu_
             p.beta, p.gamma = beta_, gamma_
+            if cfg.get('mach_route'):
+                # coefficients from Mach number, density, speed and speed of sound on the BAY; the panel gets the resulting values
+                from ..sym import Sym as _S
+                M_, rho_, V_, ainf_, q_ = ctx.V('Mach'), ctx.V('rho_air'), ctx.V('V'), ctx.V('speed_sound'), ctx.V('sqrt_M2m1')
+                if values is not None:
+                    M_, q_ = _S(Fraction(5, 3)), _S(Fraction(4, 3))
+                bay.beta = bay.gamma = bay.aeromu = None
+                bay.Mach, bay.rho_air, bay.V, bay.speed_sound = M_, rho_, V_, ainf_
+                beta_ = rho_ * V_ * V_ / q_
+                mu_ = beta_ / (M_ * ainf_) * (M_ * M_ - 2) / (M_ * M_ - 1)
+                p.beta, p.gamma = beta_, None
+                hook_saved, pol_saved = _S.SQRT_HOOK, _S.POLICY
+                _S.SQRT_HOOK = lambda x: q_
+                if values is None:
+                    _S.POLICY = OrderPolicy([M_.n > 1, q_.n > 0, q_.n * q_.n == M_.n * M_.n - 1, rho_.n > 0, V_.n > 0, ainf_.n > 0])
             if variant == 'bay-kA':
                 K1 = bay.calc_kA(silent=True).todict()
                 K2 = p.calc_kA(silent=True).todict()
@@ -193,6 +208,8 @@ def build(cfg, values=None):
                     br, bi = (b_.re, b_.im) if isinstance(b_, CSym) else (b_, 0)
                     obs.append(('bay-cA-vs-panel-imag[%d,%d]' % k, ai, bi))
                     obs.append(('bay-cA-vs-panel-real[%d,%d]' % k, ar, br))
+            if cfg.get('mach_route'):
+                _S.SQRT_HOOK, _S.POLICY = hook_saved, pol_saved
         elif variant == 'cA-default':
             # calc_cA() without an argument (as Panel.freq calls it) uses the panel's own coefficient: the aeromu attribute on the
             # explicit route
@@ -261,7 +278,11 @@ def real_exception(cfg):
             if cfg['model'] == 'cpanel':
                 bay.model, bay.r = 'cpanel_clt_donnell_bardell', 3.
             bay.add_panel(0, 0.5)
-            bay.beta, bay.aeromu = 1e4, 0.1
+            bay.flow = cfg['flow']
+            if cfg.get('mach_route'):
+                bay.Mach, bay.rho_air, bay.V, bay.speed_sound = 2., 1.2, 600., 340.
+            else:
+                bay.beta, bay.aeromu = 1e4, 0.1
             (bay.calc_kA if cfg['variant'] == 'bay-kA' else bay.calc_cA)(silent=True)
         else:
             return None
@@ -288,6 +309,9 @@ def configs(tier, seed):
     for model in ('plate',):
         out.append({'model': model, 'm': 4, 'n': 1, 'variant': 'bay-kA', 'flow': 'x', 'group': 'bay-kA-explicit-coefficients:%s' % model})
         out.append({'model': model, 'm': 3, 'n': 1, 'variant': 'bay-cA', 'flow': 'x', 'group': 'bay-cA:%s' % model})
+        out.append({'model': model, 'm': 1, 'n': 4, 'variant': 'bay-kA', 'flow': 'y', 'group': 'bay-kA-explicit-coefficients-flow-y:%s' % model})
+        out.append({'model': model, 'm': 4, 'n': 1, 'variant': 'bay-kA', 'flow': 'x', 'mach_route': True, 'group': 'bay-kA-mach-route:%s' % model})
+        out.append({'model': model, 'm': 3, 'n': 1, 'variant': 'bay-cA', 'flow': 'x', 'mach_route': True, 'group': 'bay-cA-mach-route:%s' % model})
         out.append({'model': model, 'm': 3, 'n': 1, 'variant': 'cA-default', 'flow': 'x', 'group': 'cA-default-coefficient:%s' % model})
     out[0]['canary'] = True
     out[-2]['canary'] = True
